@@ -193,6 +193,9 @@ def generated(quick):
                             add('utf8-in-literal/%s%s/%02x+%d*%s/%s' % (pre, 'str' if q == '"' else 'chr', lead, k, '%02x' % cont[0] if cont else '-', where), text)
                             if where == 'alone':
                                 add('utf8-in-literal/%s%s/%02x+%d/unterminated' % (pre, 'str' if q == '"' else 'chr', lead, k), text[:-3])
+    # inputs reported by reviewers of the unchanged tree (kept so that each stays either repaired or on record)
+    for f in sorted(glob.glob(os.path.join(build.VERIF, 'corpus', 'reported', '*.c'))):
+        add('reported/' + os.path.basename(f), open(f, 'rb').read())
     # type origins x type consumers (most are valid; the invalid combinations must be diagnosed, not crash)
     for label, data in typegrid(quick):
         add(label, data)
